@@ -62,6 +62,17 @@ Theorem C04_centre_refuted : exists G H : hostg,
 Proof. exact centre_refuted. Qed.
 Print Assumptions C04_centre_refuted.
 
+(** ... and it is exact: whenever some atom outside the centre changes hydrogen count or charge, the centre template
+    glued along the identity does NOT give the reaction back, forwards or backwards (the general form of the 114
+    known findings *:centre:*:outside-centre-change: not a defect of the gluing but of what a centre can express) *)
+Theorem C04_centre_exact : forall (invert : bool) (G H : hostg),
+  pair_wfb G H = true -> no_explicit_H G = true ->
+  centre_carries (its_construct G H) = false ->
+  exists T : its, regenerate true invert G H = Some T /\
+    regen_exact T (if invert then H else G) (if invert then G else H) = false.
+Proof. exact centre_exact_all. Qed.
+Print Assumptions C04_centre_exact.
+
 (** PARTIAL.  Full clause wanted: the reaction is among the reactor's results.  Proved: for ANY list of mappings the
     pruning keeps, if it contains the identity then its_list contains an ITS that decomposes to the reaction.  Missing
     (tested by the oracle on every run): (i) the matcher returns the identity among the raw matches -- by
